@@ -44,7 +44,34 @@ PROPS = {
         trusted=[T_OBSERVERS, T_NUM_MACHINES],
         assumptions=[A_VALID, A_REGIONS],
     ),
-    "C05": dict(level="exploration", functions=[], lemmas=[], tierb=True),
+    "C05": dict(
+        level="proof",
+        functions=[f"Dispatcher.{k}" for k in ("raw_ready_operations", "available_operations", "current_time",
+                                                "unscheduled_operations", "scheduled_operations")]
+        + [f"Dispatcher.{k}$raw" for k in ("raw_ready_operations", "available_operations", "current_time",
+                                            "unscheduled_operations", "scheduled_operations", "uncompleted_operations")]
+        + ["Dispatcher.next_operation", "Dispatcher.earliest_start_time", "Dispatcher.start_time",
+           "Dispatcher.min_start_time", "Dispatcher.is_operation_ready", "Dispatcher._update_tracking_attributes",
+           "Dispatcher.reset", "Dispatcher.__init__", "Dispatcher.dispatch"],
+        lemmas=["min-start-unique", "complete-iff-every-job-finished"],
+        tierb=True,
+        trusted=[T_OBSERVERS,
+                 "Dispatcher.ongoing_operations used through an assumed contract (well-formed result, cache invariant kept)",
+                 "abstract filter contract for third-party ready_operations_filter callables",
+                 "query specs are carried in the cache invariant as opaque atoms over the local heap components they "
+                 "depend on (contents of the three tracking vectors, filter, ghost prefix sums, the value); the "
+                 "instance is immutable (frames)"],
+        assumptions=[A_VALID,
+                     "proved: the real @_dispatcher_cache wrapper body composed with each of raw_ready_operations, "
+                     "available_operations, current_time (exact without filter), unscheduled_operations, "
+                     "scheduled_operations returns the spec value whether the entry is cached or not and keeps CacheOK; "
+                     "dispatch/reset/__init__ clear the cache before observers run; no verified body mutates a list borrowed "
+                     "from a cached query (uncompleted_operations included); next_operation, earliest_start_time, start_time, "
+                     "is_operation_ready equal their definitions",
+                     "bounded only: the values of ongoing_operations, completed_operations, uncompleted_operations, "
+                     "available_machines, available_jobs, is_scheduled/is_ongoing, current_time under a filter, and the "
+                     "UnscheduledOperationsObserver mirror"],
+    ),
     "C06": dict(
         level="proof",
         functions=["Dispatcher.min_start_time", "Dispatcher.start_time", "Schedule.makespan",
